@@ -643,6 +643,108 @@ func convertStream(w *World, seed uint64, n int, out io.Writer) int {
 			fmt.Fprintf(out, "CONVBAD genesis import with an empty pending list: %v, %d entries\n", err, len(b.Validators))
 		}
 	}()
+	// a PoA genesis whose pending records are populated (any jailed flag, status, tokens, shares, unbonding data): the
+	// importing chain shows them unchanged, and what comes out of the pending list on admission is that record — the
+	// x/staking validator stored by AcceptNewValidator equals the conversion of the stored application field by field.
+	// (Admission runs on a branch of the state that is dropped: each application is admitted from the same imported state.)
+	func() {
+		defer func() {
+			if e := recover(); e != nil {
+				bad++
+				fmt.Fprintf(out, "CONVBAD import / admission of populated pending records panicked: %v\n", e)
+			}
+		}()
+		var recs []poa.Validator
+		seen := map[string]bool{}
+		for len(recs) < 4 {
+			sv := randStakingValidator(w, r)
+			sv.Tokens = sdkmath.NewInt(int64(r.N(1 << 50))) // x/staking's power index takes tokens / 10^6 as an int64
+			pk, _ := sv.ConsPubKey()
+			if seen[sv.OperatorAddress] || seen[string(pk.Bytes())] || sv.OperatorAddress == w.Ops[0].Val.String() || sv.OperatorAddress == w.Ops[1].Val.String() ||
+				pk.Equals(w.PubKey(0)) || pk.Equals(w.PubKey(1)) {
+				continue
+			}
+			seen[sv.OperatorAddress] = true
+			seen[string(pk.Bytes())] = true
+			recs = append(recs, poa.ConvertStakingToPOA(sv))
+		}
+		bz, err := cdc.MarshalJSON(&poa.GenesisState{Vals: recs})
+		if err != nil {
+			bad++
+			fmt.Fprintf(out, "CONVBAD genesis marshal (4) %v\n", err)
+			return
+		}
+		gen5 := gen
+		gen5.PoaGenesis = bz
+		node5, _, err := NewNode(w, gen5)
+		if err != nil {
+			bad++
+			fmt.Fprintf(out, "CONVBAD genesis import of populated pending records: %v\n", err)
+			return
+		}
+		defer node5.Close()
+		node5.ExecBlock(Block{DtNs: 1_000_000_000}, nil)
+		b, err := node5.App.POAKeeper.GetPendingValidators(node5.Ctx())
+		if err != nil || len(b.Validators) != len(recs) {
+			bad++
+			fmt.Fprintf(out, "CONVBAD genesis import of populated pending records: %v, %d entries\n", err, len(b.Validators))
+			return
+		}
+		for i, want := range recs {
+			got := b.Validators[i]
+			_ = got.UnpackInterfaces(cdc)
+			_ = want.UnpackInterfaces(cdc)
+			x, y := reflect.ValueOf(normStaking(poa.ConvertPOAToStaking(want))), reflect.ValueOf(normStaking(poa.ConvertPOAToStaking(got)))
+			for _, f := range fields {
+				if f == "ConsensusPubkey" {
+					continue
+				}
+				if fx, fy := x.FieldByName(f).Interface(), y.FieldByName(f).Interface(); !reflect.DeepEqual(fx, fy) && fmt.Sprint(fx) != fmt.Sprint(fy) {
+					bad++
+					fmt.Fprintf(out, "CONVBAD imported pending record %d field %s: %v != %v\n", i, f, fx, fy)
+				}
+			}
+			// admission
+			ctx, _ := node5.Ctx().CacheContext()
+			if err := node5.App.POAKeeper.AcceptNewValidator(ctx, want.OperatorAddress, 1_000_000); err != nil {
+				bad++
+				fmt.Fprintf(out, "CONVBAD admission of imported pending record %d failed: %v\n", i, err)
+				continue
+			}
+			va, _ := sdk.ValAddressFromBech32(want.OperatorAddress)
+			stored, err := node5.App.StakingKeeper.GetValidator(ctx, va)
+			if err != nil {
+				bad++
+				fmt.Fprintf(out, "CONVBAD admission of imported pending record %d: no x/staking record: %v\n", i, err)
+				continue
+			}
+			z := reflect.ValueOf(normStaking(stored))
+			for _, f := range fields {
+				if f == "ConsensusPubkey" {
+					continue
+				}
+				if fx, fz := x.FieldByName(f).Interface(), z.FieldByName(f).Interface(); !reflect.DeepEqual(fx, fz) && fmt.Sprint(fx) != fmt.Sprint(fz) {
+					bad++
+					fmt.Fprintf(out, "CONVBAD admitted record %d differs from the stored application in field %s: %v != %v\n", i, f, fx, fz)
+				}
+			}
+			pa, e1 := poa.ConvertPOAToStaking(want).ConsPubKey()
+			pb, e2 := stored.ConsPubKey()
+			if e1 != nil || e2 != nil || !pa.Equals(pb) {
+				bad++
+				fmt.Fprintf(out, "CONVBAD admitted record %d: consensus key differs from the stored application\n", i)
+			}
+			wr, sr := want.Commission.CommissionRates, stored.Commission.CommissionRates
+			if !wr.Rate.Equal(sr.Rate) || !wr.MaxRate.Equal(sr.MaxRate) || !wr.MaxChangeRate.Equal(sr.MaxChangeRate) {
+				bad++
+				fmt.Fprintf(out, "CONVBAD admitted record %d: commission rates differ from the stored application\n", i)
+			}
+			if after, err := node5.App.POAKeeper.GetPendingValidators(ctx); err != nil || len(after.Validators) != len(recs)-1 {
+				bad++
+				fmt.Fprintf(out, "CONVBAD admission of record %d did not move exactly that application out of the list\n", i)
+			}
+		}
+	}()
 	fmt.Fprintf(out, "CONV records=%d bad=%d\n", n, bad)
 	return bad
 }
